@@ -1,7 +1,44 @@
 import A2Verif.Model.Hex
-/-! driver family `c16` (stub until the family is built) -/
-namespace A2Verif.Drv.C16
+import A2Verif.Model.Renumber
+/-!
+driver family `c16`
 
-def handle (_toks : List String) : String := "bad-request"
+* `c16 renum <maxNum> <flags> <beg> <end> <first> <step> <src-hex> <defs> <refs>` →
+  `ok <hex>` | `err` | `panic` — `Model.Renumber.renumber` (the code with the proposed fix);
+  `c16 renum-legacy …` the same for `renumberLegacy` (HEAD: empty selection = whole document)
+* `c16 labelsok <src-hex> <defs> <refs>` → `true` | `false` — `Model.Renumber.labelsOK`
+
+`<defs>`/`<refs>`: `-` or `;`-separated entries `num,sl,sc,el,ec,lead,trail` in gather order.
+-/
+namespace A2Verif.Drv.C16
+open A2Verif.Model.Renumber
+
+def parseLabel (s : String) : Option (Nat × Label) :=
+  match (s.splitOn ",").mapM (·.toNat?) with
+  | some [n, sl, sc, el, ec, ld, tr] => some (n, ⟨⟨⟨sl, sc⟩, ⟨el, ec⟩⟩, ld, tr⟩)
+  | _ => none
+
+def parseLabels (s : String) : Option (List (Nat × Label)) :=
+  if s == "-" then some [] else (s.splitOn ";").mapM parseLabel
+
+def showRes : Res (List Nat) → String
+  | .ok t => "ok " ++ A2Verif.Hex.toHex t
+  | .err => "err"
+  | .panic => "panic"
+
+def handle (toks : List String) : String :=
+  match toks with
+  | [op, maxNum, flags, beg, end_, first, step, src, defs, refs] =>
+    if op != "renum" && op != "renum-legacy" then "bad-request" else
+    match maxNum.toNat?, flags.toNat?, beg.toNat?, end_.toNat?, first.toNat?, step.toNat?,
+          A2Verif.Hex.ofHex src, parseLabels defs, parseLabels refs with
+    | some maxNum, some flags, some beg, some end_, some first, some step, some src, some defs, some refs =>
+      showRes (renumberWith (op == "renum-legacy") { src, defs, refs, beg, end_, first, step, flags, maxNum })
+    | _, _, _, _, _, _, _, _, _ => "bad-request"
+  | ["labelsok", src, defs, refs] =>
+    match A2Verif.Hex.ofHex src, parseLabels defs, parseLabels refs with
+    | some src, some defs, some refs => toString (labelsOK src defs refs)
+    | _, _, _ => "bad-request"
+  | _ => "bad-request"
 
 end A2Verif.Drv.C16
